@@ -79,6 +79,18 @@ def gen_cases(rng, tier):
             a = gen_operand(rng, ["hi" if op in ("invert", "is_even", "is_odd") and rng.random() < 0.8 else "h", "p"])
             c = {"kind": "un", "op": op, "a": a}
         cases.append(c)
+        if i % 20 == 7:
+            # the SAME left object combined in turn with right operands that compare equal (scaled,
+            # zero-padded, pooled) and with the base again: results must not depend on earlier calls
+            base = gens.hist_pos(rng, max_faces=3, frac_p=0.0, style="pos")
+            k = rng.choice([2, 3])
+            scaled = [[o, cnt * k] for o, cnt in base]
+            padded = sorted(base + [[gens.q(v), 0] for v in (-7, 11) if [v, 1] not in [o for o, _ in base]][:1],
+                            key=lambda oc: Fraction(*oc[0]))
+            rs = [{"h": base}, {"h": scaled}, {"h": padded}, {"p": [scaled]}, {"h": base}]
+            rng.shuffle(rs)
+            op2 = rng.choice(["add", "sub", "mul", "lt", "ge", "floordiv", "vs"])
+            cases.append({"kind": "binseq", "op": op2, "l": {"h": gens.hist_pos(rng, max_faces=3, frac_p=0.0)}, "rs": rs})
     return cases
 
 
@@ -95,9 +107,22 @@ def _py_operand(x):
 
 def impl_run(case):
     from dyce import H, P
+    if case["kind"] == "binseq":
+        l = _py_operand(case["l"])
+        out = []
+        for r in case["rs"]:
+            sub = dict(case, kind="bin", r=r)
+            out.append(_impl_bin(sub, l))
+        return {"seq": out}
+    return _impl_bin(case, None)
+
+
+def _impl_bin(case, shared_left):
+    from dyce import H, P
     try:
         if case["kind"] == "bin":
-            l, r = _py_operand(case["l"]), _py_operand(case["r"])
+            l = shared_left if shared_left is not None else _py_operand(case["l"])
+            r = _py_operand(case["r"])
             op = case["op"]
             if op in BINOPS:
                 f = {"add": operator.add, "sub": operator.sub, "mul": operator.mul, "truediv": operator.truediv,
@@ -166,6 +191,17 @@ def _typed_pool_issue(case):
 
 
 def coq_check(case, r):
+    if case["kind"] == "binseq":
+        if "seq" not in r:
+            return "MISMATCH"
+        parts = []
+        for rr, ans in zip(case["rs"], r["seq"]):
+            e = coq_check(dict(case, kind="bin", r=rr), ans)
+            if e in (None, "MISMATCH"):
+                return e
+            parts.append(e)
+        # every element must agree (code 0); the first non-zero code is reported
+        return "(fold_right (fun c acc => match c with O => acc | _ => c end) 0%nat " + "[" + "; ".join(parts) + "])"
     if _typed_pool_issue(case) or _fraction_pow_quirk(case):
         return None
     if "ok" in r:
@@ -185,6 +221,8 @@ def coq_check(case, r):
 
 
 def coq_show(case):
+    if case["kind"] == "binseq":
+        return None
     if case["kind"] == "bin":
         return f"h_binop {_cop(case)} {_coperand(case['l'])} {_coperand(case['r'])}"
     return f"match {_coperand(case['a'])} with OpH h => h_unop {UNOPS[case['op']]} h | _ => Err Unsupported end"
@@ -258,6 +296,9 @@ def _flat(x):
 
 
 def oracle(case):
+    if case["kind"] == "binseq":
+        outs = [oracle(dict(case, kind="bin", r=rr)) for rr in case["rs"]]
+        return None if any(o is None for o in outs) else {"seq": outs}
     try:
         if _typed_pool_issue(case) or _fraction_pow_quirk(case):
             return None
@@ -318,6 +359,8 @@ def oracle(case):
 
 
 def agree(case, r, o):
+    if case["kind"] == "binseq":
+        return "seq" in r and all(agree(dict(case, kind="bin", r=rr), a, b) for rr, a, b in zip(case["rs"], r["seq"], o["seq"]))
     if "exc" in o:
         return r.get("exc") == o["exc"]
     if "ok" not in r:
@@ -327,6 +370,8 @@ def agree(case, r, o):
 
 
 def nontrivial(case, r):
+    if case["kind"] == "binseq":
+        return True
     ops = [case["l"], case["r"]] if case["kind"] == "bin" else [case["a"]]
     sizes = []
     for x in ops:
@@ -340,6 +385,8 @@ def nontrivial(case, r):
 
 
 def case_class(case, r):
+    if case["kind"] == "binseq":
+        return "binseq:" + case["op"]
     if case["kind"] == "bin":
         sh = "".join("h" if "h" in x else "s" if "s" in x else "p" for x in (case["l"], case["r"]))
         return f"{case['op']}:{sh}" + (":" + r["exc"] if "exc" in r else "")
@@ -348,6 +395,13 @@ def case_class(case, r):
 
 def shrink_candidates(case):
     import copy
+    if case["kind"] == "binseq":
+        for i in range(len(case["rs"])):
+            if len(case["rs"]) > 1:
+                c = copy.deepcopy(case)
+                del c["rs"][i]
+                yield c
+        return
     for key in ("l", "r", "a"):
         x = case.get(key)
         if not x:
